@@ -25,8 +25,14 @@ LEVEL_NOTE = ("Trusted: CrossHair/z3 for completeness of the enumeration; the fi
               "(func.__code__ = ...), notebooks' per-cell pseudo files, histories longer than the bound.")
 EXPLANATION = "Histories of redefinitions and calls vs the tag of the called code."
 STUBS = ["fakefs", "fake clock", "warnings/traceback/pydoc cuts"]
-ASSUMES = ["a redefinition rewrites the source file at the same path"]
-OUTSIDE = ["__code__ swapping", "IPython cell files", "more than 3 versions"]
+ASSUMES = ["a redefinition rewrites the source file at the same path (edit) or lives in its own source unit (cells)"]
+OUTSIDE = ["more than 3 versions / longer histories", "source files changed without re-executing them"]
+
+PREFIX_VERSIONS = [
+    "LOG = []\ndef f(a):\n    LOG.append(0)\n    t = ('x', a)\n",                                   # forgot the return
+    "LOG = []\ndef f(a):\n    LOG.append(0)\n    t = ('x', a)\n    return t\n",                     # v0 + one more line
+    "LOG = []\ndef f(a):\n    LOG.append(0)\n    t = ('x', a)\n    return t\n    return None\n",    # v1 + one more line
+]
 
 TEMPLATES = {
     "module": "LOG = []\ndef f(a):\n    LOG.append(%(k)d)\n    return ('v%(k)d', a%(pad)s)\n",
@@ -36,6 +42,8 @@ TEMPLATES = {
 
 
 def _src(flavour, k):
+    if flavour == "prefix":
+        return PREFIX_VERSIONS[k]
     # versions differ in the body (module, nested) or only in position + tag (shifted: same length, moved down)
     return TEMPLATES[flavour] % {"k": k, "pad": ["", " ", "  "][k], "blank": "\n" * k}
 
@@ -111,8 +119,10 @@ def run_history(flavour, ops, cells=False):
                 except Exception as e:
                     probs.append("step %d: calling definition #%d (v%d) raised %s: %s" % (i, j, k, type(e).__name__, e))
                     break
-                if v != ("v%d" % k, a):
-                    probs.append("step %d: definition #%d is version v%d, call(%r) returned %r" % (i, j, k, a, v))
+                want = f(a)                      # what the code of the called object computes
+                if v != want:
+                    probs.append("step %d: definition #%d runs version v%d: call(%r) returned %r, its code computes %r" % (
+                        i, j, k, a, v, want))
                     break
     return probs
 
@@ -191,6 +201,49 @@ def ob_two_defs(ka: int, kb: int, j1: int, j2: int, j3: int, a1: int, a2: int, a
         return H.verdict(not probs)
 
 
+def ob_swap(k0: int, k1: int, k2: int, a: int, calls: int) -> bool:
+    """
+    pre: 0 <= k0 <= 2 and 0 <= k1 <= 2 and 0 <= k2 <= 2
+    pre: 0 <= a <= 1
+    pre: 0 <= calls <= 7
+    post: _
+    """
+    H.enter()
+    # hot reload: the module file is rewritten and the *same function object* gets the new code object
+    # (f.__code__ = new.__code__, what IPython's %autoreload does); `calls` says after which swaps f is called
+    vs = [H.select(k0, 0, 2), H.select(k1, 0, 2), H.select(k2, 0, 2)]
+    aa, cm = H.select(a, 0, 1), H.select(calls, 0, 7)
+    with H.native():
+        flavour = H.P("flavour")
+        fs = fakefs.FS()
+        clock = memlib.Clock()
+        probs = []
+        with memlib.env(fs, clock):
+            memlib.fresh_process()
+            mem = memlib.new_memory()
+            ns = memlib.define(fs, "c12mod", _src(flavour, vs[0]))
+            f = ns["f"]
+            g = mem.cache(f)
+            codes = {}
+            for step, v in enumerate(vs):
+                if step > 0:
+                    if v in codes and H.P("reuse_code_objects", True):
+                        fs.files["%s/c12mod.py" % memlib.SRC_DIR] = _src(flavour, v).encode("utf-8")
+                        f.__code__ = codes[v]           # swapping back to a code object seen before
+                    else:
+                        new = memlib.define(fs, "c12mod", _src(flavour, v))["f"]
+                        f.__code__ = new.__code__
+                codes.setdefault(v, f.__code__)
+                if (cm >> step) & 1:
+                    got, want = g(aa), f(aa)
+                    if got != want:
+                        probs.append("after swapping to %r: cached call returned %r, the code computes %r" % (vs[:step + 1], got, want))
+                        break
+        for m in probs:
+            H.note(m)
+        return H.verdict(not probs)
+
+
 def ob_persist(k: int, a: int, sessions: int) -> bool:
     """
     pre: 0 <= k <= 2 and 0 <= a <= 1
@@ -261,13 +314,17 @@ def validate():
 def obligations(tier, seed):
     obs = []
     L = 3 if tier == "quick" else 4
-    for flavour in ("module", "nested", "shifted"):
+    for flavour in ("module", "prefix"):
+        obs.append({"name": "swap/%s" % flavour, "fn": "ob_swap", "mode": "S", "params": {"flavour": flavour},
+                    "timeout": 600, "bounds": "f.__code__ swapped twice between versions 0..2 (code objects reused when a "
+                                              "version comes back), calls after any subset of the three stages"})
+    for flavour in ("module", "nested", "shifted", "prefix"):
         for fk in range(3):
             obs.append({"name": "hist/%s/L%d/first_%s" % (flavour, L, ["def", "call", "new"][fk]), "fn": "ob_hist", "mode": "S",
                         "params": {"flavour": flavour, "L": L, "first_kind": fk}, "timeout": 900 if tier == "quick" else 3400,
                         "bounds": "define v0, then %d operations (first: %s) over define v0..v2 / call live #0..#2 with arg 0..1 / "
                                   "fresh process" % (L, ["def", "call", "new"][fk])})
-        if flavour != "shifted":
+        if flavour in ("module", "nested"):
             for fk in range(3):
                 obs.append({"name": "cells/%s/L%d/first_%s" % (flavour, L, ["def", "call", "new"][fk]), "fn": "ob_hist",
                             "mode": "S", "kf": ["KF-C12-stale-inmemory-shortcut"],
@@ -275,10 +332,12 @@ def obligations(tier, seed):
                             "timeout": 900 if tier == "quick" else 3400,
                             "bounds": "as hist/, every definition in its own source unit (notebook cell), all live "
                                       "definitions callable"})
-        if flavour != "shifted":
+        if flavour in ("module", "nested"):
             obs.append({"name": "two_defs/%s" % flavour, "fn": "ob_two_defs", "mode": "S",
                         "kf": ["KF-C12-stale-inmemory-shortcut"], "params": {"flavour": flavour}, "timeout": 600,
                         "bounds": "define va, define vb (own source units), three calls of either live definition, args 0..1"})
+        if flavour == "prefix":
+            continue
         obs.append({"name": "persist/%s" % flavour, "fn": "ob_persist", "mode": "S", "params": {"flavour": flavour},
                     "timeout": 300, "bounds": "version 0..2, argument 0..1, 1..3 fresh processes"})
     obs.append({"name": "lambda", "fn": "ob_lambda", "mode": "S", "timeout": 120,
